@@ -2,6 +2,7 @@ package lua
 
 import (
 	"sort"
+	"strings"
 )
 
 func OpenTable(L *LState) int {
@@ -71,24 +72,19 @@ func tableConcat(L *LState) int {
 		L.Push(emptyLString)
 		return 1
 	}
-	//TODO should flushing?
-	retbottom := L.GetTop()
+	// build the string directly: pushing 2n-1 values overflowed the registry for long lists
+	var buf strings.Builder
 	for ; i <= j; i++ {
 		v := tbl.RawGetInt(i)
 		if !LVCanConvToString(v) {
 			L.RaiseError("invalid value (%s) at index %d in table for concat", v.Type().String(), i)
 		}
-		L.Push(v)
+		buf.WriteString(LVAsString(v))
 		if i != j {
-			L.Push(sep)
+			buf.WriteString(string(sep))
 		}
 	}
-	ret := stringConcat(L, L.GetTop()-retbottom, L.reg.Top()-1)
-	if _, ok := ret.(LNumber); ok {
-		// a single number element: the result of concat is always a string
-		ret = LString(ret.String())
-	}
-	L.Push(ret)
+	L.Push(LString(buf.String()))
 	return 1
 }
 
